@@ -24,7 +24,7 @@ TypeChoices(w) == {<<"bool", 1>>} \cup
                   {<<IF tw \in Native THEN "unat" ELSE "uarb", tw>> : tw \in ({w - 1, w, w + 1} \cap (1..128))}
                   \cup (IF w \in Native THEN {<<"inat", w>>} ELSE {})
 ArrChoices == IF Level >= 2 THEN {<<>>, <<1>>, <<2>>, <<3>>} ELSE {<<>>, <<1>>, <<2>>}
-StrideChoices(w) == {<<>>} \cup {<<s>> : s \in ({w - 1, w, w + 1} \cap (1..200))}
+StrideChoices(w) == {<<>>} \cup {<<s>> : s \in ({0, w - 1, w, w + 1} \cap (0..200))}
 
 (* one range, as bits(lo..=hi) or as a one-element list *)
 Single == /\ ~done
